@@ -132,6 +132,8 @@ unsafe fn first_nonzero(ptr: usize, size: usize) -> Option<usize> {
 /// What happened in one operation.
 #[derive(Clone, Debug, Default)]
 pub struct Step {
+    /// returned address (0 = null; 1 for free)
+    pub ptr: usize,
     pub null: bool,
     pub refused: bool,
     pub refused_mmap: bool,
@@ -281,6 +283,7 @@ impl World {
             }
             Ok((p, _log)) => p,
         };
+        st.ptr = p;
         match op {
             Op::Malloc { size, align } | Op::Calloc { size, align } => {
                 if p == 0 {
@@ -480,7 +483,7 @@ pub fn run_case(w: &mut World, c: &Case, r: &mut Report, verbose: bool) -> RunIn
             println!(
                 "  [{i}] {:<14} -> {} events {:?} footprint {} regions {:x?}",
                 op.show(),
-                if st.null { "NULL".to_string() } else { match op { Op::Free { .. } => "()".into(), _ => format!("{:#x}", w.slots.iter().flatten().last().map(|b| b.ptr).unwrap_or(0)) } },
+                if st.null { "NULL".to_string() } else { match op { Op::Free { .. } => "()".into(), _ => format!("{:#x}", st.ptr) } },
                 st.events,
                 w.k.footprint,
                 w.k.regions
